@@ -14,6 +14,8 @@ import framework as F  # noqa
 
 
 def first_diff(a, b, path=''):
+    if isinstance(a, (bool, int)) and isinstance(b, (bool, int)):
+        return None if int(a) == int(b) else '%s: %r vs %r' % (path, a, b)
     if type(a) != type(b):
         return '%s: %r vs %r' % (path, a, b)
     if isinstance(a, list):
